@@ -1,6 +1,6 @@
 (* C05/Property.v — the property theorems and nothing else. *)
 From Coq Require Import Reals.
-From SM Require Import Base.Num C05.Model C05.Proofs.
+From SM Require Import Base.Num C05.Model C05.Proofs Gen.C05_code C05.Translated.
 Open Scope R_scope.
 
 (* For ALL six angles (given as cosine/sine pairs, no trigonometric identity
@@ -54,3 +54,33 @@ Theorem C05_corotation : forall (theta phi psi dtheta dphi dpsi alpha : cs (T:=R
   qabc_apply ROps (qabc_rotation ROps theta phi psi dtheta dphi dpsi) qx qy.
 Proof. exact qabc_corotation. Qed.
 Print Assumptions C05_corotation.
+
+(* ---- the same statements about the TEXT of kernel_iq.c ----
+   Gen/C05_code.v is regenerated on every run from the current kernel_iq.c by harness/ctrans.py
+   (statement-by-statement translation of qac_rotation, qabc_rotation, qac_apply, qabc_apply);
+   these theorems are therefore re-proved against what the code says now. *)
+Theorem C05_code_qabc_is_Rinv : forall (theta phi psi dtheta dphi dpsi : cs (T:=R)) qx qy,
+  code_qabc_apply ROps (code_qabc_rotation ROps theta phi psi dtheta dphi dpsi) qx qy =
+  mapply ROps (transpose (Rdoc ROps theta phi psi dtheta dphi dpsi)) (V3 qx qy 0).
+Proof. exact code_qabc_is_Rinv. Qed.
+Print Assumptions C05_code_qabc_is_Rinv.
+
+Theorem C05_code_qac_is_Rinv : forall (theta phi dtheta dphi : cs (T:=R)) qx qy,
+  unit theta -> unit phi -> unit dtheta -> unit dphi ->
+  let q := mapply ROps (transpose (Rdoc ROps theta phi cs0 dtheta dphi cs0)) (V3 qx qy 0) in
+  code_qac_apply ROps sqrt (code_qac_rotation ROps theta phi dtheta dphi) qx qy =
+  (qab_of (v1 q * v1 q + v2 q * v2 q), v3 q).
+Proof. exact code_qac_is_Rinv. Qed.
+Print Assumptions C05_code_qac_is_Rinv.
+
+Theorem C05_code_is_model : forall (theta phi psi dtheta dphi dpsi : cs (T:=R)) (r : qabc_rot (T:=R)) (r2 : R * R) qx qy,
+  code_qabc_rotation ROps theta phi psi dtheta dphi dpsi = qabc_rotation ROps theta phi psi dtheta dphi dpsi /\
+  code_qac_rotation ROps theta phi dtheta dphi = qac_rotation ROps theta phi dtheta dphi /\
+  code_qabc_apply ROps r qx qy = qabc_apply ROps r qx qy /\
+  code_qac_apply ROps sqrt r2 qx qy = (qab_of (fst (qac_apply ROps r2 qx qy)), snd (qac_apply ROps r2 qx qy)).
+Proof.
+  intros. split; [apply code_qabc_rotation_is_model|].
+  split; [apply code_qac_rotation_is_model|].
+  split; [apply code_qabc_apply_is_model|apply code_qac_apply_is_model].
+Qed.
+Print Assumptions C05_code_is_model.
